@@ -138,5 +138,5 @@ Definition raws (g : c06cfg) : list Z := zrange (q_mn g) (Z.to_nat (q_mx g - q_m
 
 (* the whole check for one configuration: every position of the axis range, and monotonicity over all pairs *)
 Definition c06_config_ok (g : c06cfg) : bool :=
-  forallb (fun raw => c06_event_ok g raw (axis_msgs g raw)) (raws g) &&
+  forallb (fun raw => c06_event_ok g raw (axis_msgs g raw) && forallb wf_msgb (axis_msgs g raw)) (raws g) &&
   c06_monotone g (map (fun raw => (raw, axis_msgs g raw)) (raws g)).
